@@ -700,6 +700,10 @@ func runC10(r *Rand, tier string, o *Out) {
 		o.Count("busy-consumer")
 	}
 	// a handler registered while a message is being dispatched
+	if out := o.Do("P", "c10.slotrace 4", true); out != "ok" {
+		o.Fail("a handler registered during a dispatch: "+strings.SplitN(strings.TrimPrefix(out, "fail:"), " ", 2)[0], "c10.slotrace 4 => "+out)
+	}
+	o.Count("scenario:slot-changes-hands-during-a-dispatch")
 	if out := o.Do("P", "c10.lateadd 5", true); out != "ok" {
 		o.Fail("a handler registered during a dispatch: "+strings.SplitN(strings.TrimPrefix(out, "fail:"), " ", 2)[0], "c10.lateadd 5 => "+out)
 	}
